@@ -18,16 +18,22 @@ LEVEL = "model_checking"
 WIDE = 10000  # serial offset of the "wide" rendering variant (serial fills columns 7-11)
 
 # Deviation constants that describe the *current* tree (see DESIGN.md, C07).
-DEVIANT = {"BlankStops": "TRUE", "EndEmptyRaises": "TRUE", "GluedKeepsWater": "TRUE"}
-CODE_CONSTS = {"BlankStops": "FALSE", "EndEmptyRaises": "FALSE", "GluedKeepsWater": "FALSE"}
+DEVIANT = {"BlankStops": "TRUE", "EndEmptyRaises": "TRUE", "GluedKeepsWater": "TRUE", "EmptyModelContinues": "TRUE"}
+CODE_CONSTS = {"BlankStops": "FALSE", "EndEmptyRaises": "FALSE", "GluedKeepsWater": "FALSE", "EmptyModelContinues": "FALSE"}
 if os.environ.get("VERIF_C07_MODEL") == "deviant":  # experimentation only
     CODE_CONSTS = DEVIANT
 
 
-def cfg_text(maxlen, consts, emit, inv, spec="Spec", alphabet="MCAlphabet", dw="{FALSE, TRUE}"):
+ALL_SYMS = list(range(1, 19))
+BOOK_SYMS_QUICK = [1, 5, 12, 13, 14, 15]          # two atoms of different residues, TER, END, MODEL, ENDMDL
+BOOK_SYMS_THOROUGH = [1, 4, 5, 8, 12, 13, 14, 15]  # + insertion-code residue, water
+
+
+def cfg_text(maxlen, consts, emit, inv, spec="Spec", alphabet="MCAlphabet", dw="{FALSE, TRUE}", symset=None):
+    sym = "" if spec != "Spec" else "  SymSet = {" + ", ".join(str(x) for x in (symset or ALL_SYMS)) + "}\n"
     return (f"SPECIFICATION {spec}\nCONSTANTS\n  MaxLen = {maxlen}\n"
             f"  BlankStops = {consts['BlankStops']}\n  EndEmptyRaises = {consts['EndEmptyRaises']}\n"
-            f"  GluedKeepsWater = {consts['GluedKeepsWater']}\n  DropWaterChoices = {dw}\n  Emit = {emit}\nINVARIANT {inv}\n")
+            f"  GluedKeepsWater = {consts['GluedKeepsWater']}\n  EmptyModelContinues = {consts['EmptyModelContinues']}\n  DropWaterChoices = {dw}\n  Emit = {emit}\n{sym}INVARIANT {inv}\n")
 
 
 # ------------------------------------------------------------------ concretisation
@@ -269,44 +275,28 @@ def _work_ex(args):
     return res, "".join(text)
 
 
-# ------------------------------------------------------------------ main
-def run(ctx):
-    rng = random.Random(ctx.seed)
-    maxlen = 4 if ctx.quick else 5
-    ctx.rule = ("TLC enumerates every file of <= MaxLen lines over the 18-symbol alphabet of MC_PdbReader x "
-                "{drop-water on, off}; each is rendered to PDB text and read by the real get_molecule/"
-                "drop_water/setup_molecule.  Non-trivial = well-formed file with at least one coordinate line "
-                "and at least one non-coordinate line or duplicate/alternate/insertion/blank-chain atom; "
-                "distinct = distinct (dw, file).")
-    ctx.assumptions += [
-        "WellFormed(file): MODEL/ENDMDL alternate starting with MODEL; no coordinate line outside a model when "
-        "models are used; END only after the last coordinate line; coordinate lines of one residue contiguous",
-        "records without chain id are separated into chains by TER (EffChain)",
-        "rendering of abstract lines to PDB text is done by the harness (columns per the wwPDB format)",
-    ]
-    ctx.trusted += ["vlib/checks/c07.py render/observe/abstract_line", "TLC 1.8", "Json community module"]
-
+def explore(ctx, rng, symset, maxlen, label):
     # (M) model checking: the model of the current code satisfies the property ...
     cfg = os.path.join(ctx.work, "mc.cfg")
-    open(cfg, "w").write(cfg_text(maxlen, CODE_CONSTS, "FALSE", "AllIngested"))
+    open(cfg, "w").write(cfg_text(maxlen, CODE_CONSTS, "FALSE", "AllIngested", symset=symset))
     r = core.run_tlc("MC_PdbReader", cfg, ctx.work, timeout=3000)
     core.need_ok(r, "MC_PdbReader/current")
-    ctx.add_tlc(r, f"model of current code, MaxLen={maxlen}")
+    ctx.add_tlc(r, f"model of current code, {label}, MaxLen={maxlen}")
     if r.invariant:
         # the model of the code as written violates C07: every such file is replayed below
         ctx.extra["model_violation"] = r.invariant
     # ... and the invariant is not vacuous: with the historical deviations switched on TLC must find it
-    open(cfg, "w").write(cfg_text(3, DEVIANT, "FALSE", "AllIngested"))
+    open(cfg, "w").write(cfg_text(3, DEVIANT, "FALSE", "AllIngested", symset=symset))
     r2 = core.run_tlc("MC_PdbReader", cfg, ctx.work, timeout=600)
     if r2.invariant != "AllIngested":
         raise core.MachineryError("self-test failed: deviant reader model does not violate AllIngested")
     ctx.add_tlc(r2, "deviant model (BlankStops, EndEmptyRaises): violation found as required")
 
     # (R) emission of every file with the model's result
-    open(cfg, "w").write(cfg_text(maxlen, CODE_CONSTS, "TRUE", "EmitInv"))
+    open(cfg, "w").write(cfg_text(maxlen, CODE_CONSTS, "TRUE", "EmitInv", symset=symset))
     r3 = core.run_tlc("MC_PdbReader", cfg, ctx.work, workers=8, timeout=3000, heap="6g")
     core.need_ok(r3, "MC_PdbReader/emit")
-    ctx.add_tlc(r3, "emission of cases")
+    ctx.add_tlc(r3, f"emission of cases, {label}")
     alphabet = None
     cases = []
     for v in r3.printed:
@@ -316,7 +306,7 @@ def run(ctx):
             cases.append(json.loads(v[1:]))
     if not alphabet or len(cases) < 100:
         raise core.MachineryError(f"emission produced {len(cases)} cases")
-    want = 2 * sum(len(alphabet) ** k for k in range(maxlen + 1))
+    want = 2 * sum(len(symset) ** k for k in range(maxlen + 1))
     if len(cases) != want:
         raise core.MachineryError(f"emission incomplete: {len(cases)} finished files, expected {want}")
     ctx.exhaustive = True
@@ -337,23 +327,46 @@ def run(ctx):
         elif c["bad"]:
             # the code does what the model says, and TLC found the model's result to violate C07
             mismatch.append(t)
-    n_sample = 1500 if ctx.quick else 6000
+    n_sample = (1500 if ctx.quick else 6000) // (1 if symset == ALL_SYMS else 3)
     idxs = rng.sample(range(len(cases)), min(n_sample, len(cases)))
     sample = [{"id": n, "dw": cases[n]["dw"], "file": cases[n]["file"], "res": observed[n]} for n in idxs]
-    ctx.extra["replayed_cases"] = len(cases)
-    ctx.extra["model_mismatches"] = len(mismatch)
+    ctx.extra["replayed_cases"] = ctx.extra.get("replayed_cases", 0) + len(cases)
+    ctx.extra["model_mismatches"] = ctx.extra.get("model_mismatches", 0) + len(mismatch)
     for c in (cases[len(cases) // 3], cases[-1]):
         ctx.sample({"dw": c["dw"], "file_kinds": [alphabet[s - 1]["k"] for s in c["file"]],
                     "text": render(alphabet, c["file"]), "model_result": c["res"]})
     todo = {t["id"]: t for t in mismatch[:20000] + sample}
     traces = list(todo.values())
-    verdicts = validate(ctx, alphabet, traces, "generated")
+    verdicts = validate(ctx, alphabet, traces, "generated-" + label)
     judge(ctx, alphabet, traces, verdicts, "generated")
     # a sampled, accepted trace must be accepted by TLC too (exercises the judging path)
     for t in sample:
         acc, wf, clauses = verdicts[t["id"]]
         if not acc and norm(t["res"]) == norm(cases[t["id"]]["res"]):
             raise core.MachineryError("TLC rejected a trace that equals the model's own result")
+
+
+
+# ------------------------------------------------------------------ main
+def run(ctx):
+    rng = random.Random(ctx.seed)
+    maxlen = 4 if ctx.quick else 5
+    ctx.rule = ("TLC enumerates every file of <= MaxLen lines over the 18-symbol alphabet of MC_PdbReader x "
+                "{drop-water on, off}; each is rendered to PDB text and read by the real get_molecule/"
+                "drop_water/setup_molecule.  Non-trivial = well-formed file with at least one coordinate line "
+                "and at least one non-coordinate line or duplicate/alternate/insertion/blank-chain atom; "
+                "distinct = distinct (dw, file).")
+    ctx.assumptions += [
+        "WellFormed(file): MODEL/ENDMDL alternate starting with MODEL; no coordinate line outside a model when "
+        "models are used; END only after the last coordinate line; coordinate lines of one residue contiguous",
+        "records without chain id are separated into chains by TER (EffChain)",
+        "rendering of abstract lines to PDB text is done by the harness (columns per the wwPDB format)",
+    ]
+    ctx.trusted += ["vlib/checks/c07.py render/observe/abstract_line", "TLC 1.8", "Json community module"]
+
+    explore(ctx, rng, ALL_SYMS, maxlen, "full alphabet")
+    # the record-bookkeeping sub-alphabet (atoms of two residues, TER, END, MODEL, ENDMDL) two lines deeper
+    explore(ctx, rng, BOOK_SYMS_QUICK if ctx.quick else BOOK_SYMS_THOROUGH, 6, "bookkeeping sub-alphabet")
 
     # (T) perturbed excerpts of real files
     ex = excerpts(ctx, rng)
